@@ -98,6 +98,24 @@ func installHooks() {
 			return num(strings.TrimPrefix(t.Default, "big:")), true
 		}
 		switch t.Default {
+		case "refand1": // the FIRST member, through the reference idiom
+			if t.K == "ref" {
+				switch refTarget(t) {
+				case "N":
+					return num("1"), true
+				case "E":
+					return "a", true
+				}
+			}
+		case "struct2": // a second, different partial override of the same struct
+			if t.K == "ref" {
+				switch refTarget(t) {
+				case "P":
+					return map[string]any{"n": num("2")}, true
+				case "D":
+					return map[string]any{"b": num("4")}, true
+				}
+			}
 		case "scalar", "refand":
 			if t.K == "ref" {
 				switch refTarget(t) {
@@ -153,7 +171,7 @@ func installHooks() {
 		return nil, false
 	}
 	gschema.CueDefaultHook = func(s Schema, t Term, typ string) (string, bool) {
-		if t.Default == "refand" && t.K == "ref" {
+		if (t.Default == "refand" || t.Default == "refand1") && t.K == "ref" {
 			v, _ := gschema.DefaultHook(s, t)
 			b, _ := json.Marshal(v)
 			return typ + " & (*" + string(b) + " | _)", true
@@ -203,6 +221,16 @@ var (
 		"-9223372036854775807": "MinInt64+1", "18446744073709551615": "MaxUint64", "1e21": "1e21", "16777217.0": "2^24+1"}
 )
 
+// ED / ND / AD: a named string enum, integer enum and string alias that declare a default
+// of their own ("b", 2, "d").
+func objsWithOwnDefault() map[string]Obj {
+	return map[string]Obj{
+		"ED": {Name: "ED", T: def(irgen.Enum("str"), "scalar")},
+		"ND": {Name: "ND", T: def(irgen.Enum("int"), "scalar")},
+		"AD": {Name: "AD", T: def(irgen.S("string"), "scalar")},
+	}
+}
+
 // NB is a named integer enum whose members are beyond 2^53.
 func objNB() Obj { return Obj{Name: "NB", T: irgen.Enum("big")} }
 
@@ -229,6 +257,23 @@ func withObjs(root Term) Schema {
 	}
 	if usesNB {
 		objs = append(objs, objNB())
+	}
+	own := objsWithOwnDefault()
+	for _, n := range []string{"ED", "ND", "AD"} {
+		used := false
+		var w func(t Term)
+		w = func(t Term) {
+			if t.K == "ref" && refTarget(t) == n {
+				used = true
+			}
+			for _, s := range t.Sub {
+				w(s)
+			}
+		}
+		w(root)
+		if used {
+			objs = append(objs, own[n])
+		}
 	}
 	return gschema.WithSupport(objs...)
 }
@@ -324,8 +369,14 @@ type passInfo struct {
 	Name        string         // pass name (part of the witness)
 	YAML        string         // content of the passes file
 	ConstDisj   bool           // disjunction_with_constant_to_default: `const | type` fields default to the constant
-	SetDefaults map[string]any // fields_set_default: Root field -> value
+	SetDefaults map[string]any // fields_set_default: "<package>.<Object>.<field>" -> value
+	// Second, when set, is a second package ("q") generated in the same unit: same object and
+	// field names as package p, so that a transformation aimed at one package can be seen
+	// leaking into the other.
+	Second *Schema
 }
+
+const secondPkg = "q"
 
 var passTable = map[string]passInfo{}
 
@@ -363,17 +414,60 @@ func passSchemas(thorough bool) []Schema {
 		{irgen.S("string"), "d"}, {irgen.S("int64"), num("3")}, {irgen.S("float64"), num("1.5")}, {irgen.S("bool"), true},
 		{irgen.Array(irgen.S("string")), []any{"x", "y"}}, {irgen.Enum("str"), "b"}, {ref("E"), "b"},
 	}
+	// the referred definition has a default of its own, the field is given a DIFFERENT one
+	sets = append(sets, sd{ref("ED"), "a"}, sd{ref("ND"), num("1")}, sd{ref("AD"), "x"})
 	if thorough {
 		sets = append(sets, sd{irgen.Array(irgen.S("int64")), []any{num("1"), num("2")}}, sd{irgen.Enum("int"), num("2")}, sd{ref("N"), num("2")})
 	}
 	for _, x := range sets {
 		for _, required := range []bool{true, false} {
-			s := gschema.WithSupport(Obj{Name: "Root", T: irgen.Struct1("v", required, x.t)})
+			s := withObjs(irgen.Struct1("v", required, x.t))
 			b, _ := json.Marshal(x.v)
-			passTable[s.String()] = passInfo{Name: "fields_set_default", SetDefaults: map[string]any{"v": x.v},
+			passTable[s.String()] = passInfo{Name: "fields_set_default", SetDefaults: map[string]any{"p.Root.v": x.v},
 				YAML: "passes:\n  - fields_set_default:\n      defaults: {\"p.Root.v\": " + string(b) + "}\n"}
 			out = append(out, s)
 		}
+	}
+	// fields_set_default aims at ONE field, "<package>.<Object>.<field>": a same-named field
+	// of another object of the package (Q), or of the same-named object of another package
+	// (Qq describes what package q's Root looks like) keeps its own default; when both
+	// packages are aimed at, each gets its own value
+	type multi struct {
+		t      Term
+		v1, v2 any
+	}
+	multis := []multi{{irgen.S("int64"), num("3"), num("4")}, {irgen.S("string"), "x", "y"}, {irgen.Enum("str"), "b", "a"}}
+	if thorough {
+		multis = append(multis, multi{irgen.S("bool"), true, false}, multi{irgen.Array(irgen.S("string")), []any{"x"}, []any{"y", "z"}})
+	}
+	for _, m := range multis {
+		own := def(m.t, map[string]string{"scalar": "scalar", "enum": "scalar", "array": "list"}[m.t.K])
+		if m.t.K == "scalar" && m.t.A == "bool" {
+			own = def(m.t, "zero") // false: differs from the value the pass sets
+		}
+		v1, _ := json.Marshal(m.v1)
+		v2, _ := json.Marshal(m.v2)
+		other := irgen.Struct1("w", true, own)
+		// Root refers to the other object: the JSON Schema front-end only keeps the definitions it can reach
+		rootOf := func(otherName string) Term {
+			return irgen.StructN([]irgen.Field{{Name: "w", Required: true}, {Name: "o", Required: false}}, []Term{m.t, ref(otherName)})
+		}
+		root := irgen.Struct1("w", true, m.t)
+		// (1) another object of the same package holds a field with the same name
+		s1 := Schema{Objs: []Obj{{Name: "Root", T: rootOf("Q")}, {Name: "Q", T: other}}}
+		passTable[s1.String()] = passInfo{Name: "fields_set_default", SetDefaults: map[string]any{"p.Root.w": m.v1},
+			YAML: "passes:\n  - fields_set_default:\n      defaults: {\"p.Root.w\": " + string(v1) + "}\n"}
+		// (2) another package holds the same object and field names, with a default of its own
+		q2 := Schema{Objs: []Obj{{Name: "Root", T: other}}}
+		s2 := Schema{Objs: []Obj{{Name: "Root", T: rootOf("Qq")}, {Name: "Qq", T: other}}}
+		passTable[s2.String()] = passInfo{Name: "fields_set_default(p only; package q holds the same names)", SetDefaults: map[string]any{"p.Root.w": m.v1}, Second: &q2,
+			YAML: "passes:\n  - fields_set_default:\n      defaults: {\"p.Root.w\": " + string(v1) + "}\n"}
+		// (3) both packages are given a value, each its own
+		q3 := Schema{Objs: []Obj{{Name: "Root", T: root}}}
+		s3 := Schema{Objs: []Obj{{Name: "Root", T: rootOf("Qq")}, {Name: "Qq", T: root}}}
+		passTable[s3.String()] = passInfo{Name: "fields_set_default(p and q, different values)", SetDefaults: map[string]any{"p.Root.w": m.v1, "q.Root.w": m.v2}, Second: &q3,
+			YAML: "passes:\n  - fields_set_default:\n      defaults: {\"p.Root.w\": " + string(v1) + ", \"q.Root.w\": " + string(v2) + "}\n"}
+		out = append(out, s1, s2, s3)
 	}
 	return out
 }
@@ -413,6 +507,23 @@ func c10Schemas(thorough bool) []Schema {
 	}
 	for _, s := range nestedSchemas() {
 		add(s)
+	}
+	// the same definition referred to more than once with DIFFERENT defaults (enum member,
+	// struct override), in both orders, and with/without a default — a front-end or jenny
+	// that remembers what a reference resolved to shows here only
+	again := [][2]Term{
+		{def(ref("E"), "refand"), def(ref("E"), "refand1")}, {def(ref("N"), "refand"), def(ref("N"), "refand1")},
+		{def(ref("P"), "struct"), def(ref("P"), "struct2")}, {def(ref("D"), "struct"), def(ref("D"), "struct2")},
+		{def(ref("E"), "refand"), ref("E")}, {def(ref("P"), "struct"), ref("P")},
+	}
+	for _, pair := range again {
+		for _, order := range [][2]int{{0, 1}, {1, 0}} {
+			a, b := pair[order[0]], pair[order[1]]
+			add(withObjs(irgen.StructN([]irgen.Field{{Name: "a", Required: true}, {Name: "b", Required: true}}, []Term{a, b})))
+			if thorough {
+				add(withObjs(irgen.StructN([]irgen.Field{{Name: "a", Required: false}, {Name: "b", Required: false}}, []Term{a, b})))
+			}
+		}
 	}
 	for _, s := range passSchemas(thorough) {
 		add(s)
